@@ -110,19 +110,27 @@ theorem parsePattern_slashed (path : Bytes) (p : Pattern) (h : parsePattern path
     by_cases hc : c = slash
     · subst hc
       simp only [bne_self_eq_false, Bool.false_eq_true, if_false] at h
-      split at h
-      · split at h
+      cases hs : splitStar (slash :: rest) with
+      | none =>
+        rw [hs] at h; simp only at h
+        split at h
         · cases h
         · injection h with h; subst h; rfl
-      · rename_i i hi
+      | some pr =>
+        obtain ⟨pre, name⟩ := pr
+        rw [hs] at h; simp only at h
         split at h
         · injection h with h; subst h
-          rename_i hcond
-          simp only [Bool.and_eq_true] at hcond
-          have hlast := hcond.1.1.1.1.1
-          cases i with
-          | zero => simp at hlast
-          | succ n => simp [Pattern.text]
+          -- the text before the first '*' of "/..." starts with '/'
+          simp only [splitStar] at hs
+          rw [if_neg (by decide)] at hs
+          cases hr : splitStar rest with
+          | none => rw [hr] at hs; cases hs
+          | some ab =>
+            rw [hr] at hs
+            injection hs with hs
+            injection hs with h1 _
+            subst h1; rfl
         · cases h
     · have : (c != slash) = true := by simpa using hc
       simp [this] at h
